@@ -584,8 +584,10 @@ class FermionicArray(AbelianArray):
             new.phase_global(inplace=True)
 
         if phase_dual:
+            # n.b. `new_indices` are already conjugated: flip the legs that
+            # *were* dual, consistent with `conj(phase_dual=True)`
             axs_conj = tuple(
-                ax for ax, ix in enumerate(new_indices) if ix.dual
+                ax for ax, ix in enumerate(new_indices) if not ix.dual
             )
             new.phase_flip(*axs_conj, inplace=True)
 
